@@ -117,7 +117,7 @@ var props = map[string]*propCfg{
 	},
 	"C06": {
 		Title:    "named inputs are each read once, decoded faithfully, and failures are reported",
-		Quick:    tierCfg{Runs: 3000, Chunk: 100, DetRuns: 48, ShrinkSec: 60},
+		Quick:    tierCfg{Runs: 6000, Chunk: 200, DetRuns: 48, ShrinkSec: 60},
 		Thorough: tierCfg{Runs: 160000, Chunk: 1000, DetRuns: 256, ShrinkSec: 240},
 		Rule: "one evaluation = one in-process `rare filter -e {src}:{line}:{0} [-z] [-R] --readers r --batch b --workers w --batch-buffer k args...` under the simulated scheduler over a generated scratch tree (2-10 files in nested directories: plain, empty, gzip, corrupt-header gzip, truncated gzip, bit-flipped gzip, names with glob metacharacters) with 1-5 arguments over {existing path, missing path, directory, glob with 0/1/many matches, pattern with metacharacters in a directory component, bad pattern, repeated mention} or stdin (none / -); odd-indexed runs inject one open failure or one read error at a drawn byte of one input; " +
 			"distinct_nontrivial = distinct schedule hashes among runs with >= 1 input and >= 2 goroutines runnable at >= 1 decision",
